@@ -6,6 +6,9 @@ use tera::{Context, Map, Tera, Value};
 use tvh::galvm::*;
 use tvh::*;
 
+#[path = "../c03_stmt.rs"]
+mod stmt;
+
 fn m(entries: Vec<(&str, Value)>) -> Value {
     let mut mm = Map::new();
     for (k, v) in entries {
@@ -105,6 +108,93 @@ fn gen_set(rng: &mut Rng, k: usize) -> SetCase {
     }
 }
 
+/// Families `compile` (Model/Compile.v vs the real compiler, listing before optimisation) and
+/// `ref` (Spec/Stmt.v vs tera.render; plus, inside Coq, the compiled library on the model VM).
+fn stmt_families(args: &Args, rng: &mut Rng, meta: &mut Meta) {
+    use tera::verif::chunk_listings;
+    let thorough = args.tier == "thorough";
+    let hdr = "From TeraV Require Import Model.Value Model.Instr Model.VM Spec.Stmt Corr.CorrC03.";
+    let mut csink = Sink::new(&args.out, "compile", hdr, "check_compile");
+    csink.shard_cap_set(100);
+    let mut rsink = Sink::new(&args.out, "ref", hdr, "check_ref_both");
+    rsink.shard_cap_set(40);
+    let n_libs = if thorough { 900 } else { 140 };
+    let mut rejected = 0usize;
+    let mut features_seen: std::collections::BTreeMap<&'static str, usize> = Default::default();
+    for k in 0..n_libs {
+        let depth = 1 + (k % 3) as u32;
+        let lib = stmt::library(rng, depth);
+        let srcs: Vec<(String, String)> = lib.iter().map(|(n, b)| (n.clone(), stmt::body_src(b, rng))).collect();
+        let mut tera = Tera::default();
+        tera.autoescape_on(vec![".html"]);
+        if let Err(e) = tera.add_raw_templates(srcs.clone()) {
+            // the generator only produces accepted templates: anything else is a generator bug
+            rejected += 1;
+            meta.oracle_fail(&format!("generated library rejected: {e}"), None, json!({"templates": srcs}));
+            continue;
+        }
+        let mut feats = std::collections::BTreeSet::new();
+        for (_, b) in &lib {
+            for s in b {
+                s.features(&mut feats, 0, 0);
+            }
+        }
+        for f in &feats {
+            *features_seen.entry(f).or_default() += 1;
+        }
+        // ---- compile: every template body vs the real pre-optimisation listing
+        for ((name, b), (_, src)) in lib.iter().zip(&srcs) {
+            let Ok(ls) = chunk_listings(name, src, tera::Delimiters::default()) else { continue };
+            let Some(main) = ls.iter().find(|c| c.id == "main") else { continue };
+            let g = format!("{{| cc_body := {}; cc_impl := {} |}}", stmt::body_gal(b), gal_code(&main.before));
+            let jumps = main.before.iter().filter(|(i, _)| matches!(i.op, "Jump" | "PopJumpIfFalse" | "Iterate" | "JumpIfFalseOrPop" | "JumpIfTrueOrPop")).count();
+            let desc = json!({"source": src, "instructions": main.before.len(), "jumps": jumps});
+            csink.push(g, desc, jumps >= 2, None, &[if jumps >= 2 { "jumps>=2" } else { "jumps<2" }]);
+        }
+        // ---- ref: render the entry under 1-2 context pairs
+        let glib = format!(
+            "[{}]",
+            lib.iter()
+                .map(|(n, b)| format!(
+                    "{{| td_name := {}; td_autoescape := {}; td_body := {} |}}",
+                    gal_str(n),
+                    gal_bool(n.ends_with(".html")),
+                    stmt::body_gal(b)
+                ))
+                .collect::<Vec<_>>()
+                .join("; ")
+        );
+        let libname = format!("lib_{:x}", fnv_pub(&glib));
+        let defs = vec![(libname.clone(), glib)];
+        for _ in 0..(if thorough { 2 } else { 1 }) {
+            let (ctx, glob) = stmt::contexts(rng);
+            let c = to_context(&ctx);
+            *tera.global_context() = to_context(&glob);
+            let entry = &lib[0].0;
+            let r = guarded(|| tera.render(entry, &c));
+            meta.oracle_checks += 1;
+            if let Outcome::Panic(msg) = &r {
+                meta.oracle_fail(&format!("panic: {msg}"), None, json!({"templates": srcs, "entry": entry}));
+            }
+            let g = format!(
+                "{{| rc_lib := {}; rc_entry := {}; rc_ctx := {}; rc_global := {}; rc_impl := {} |}}",
+                libname, gal_str(entry), gal_ctx(&ctx), gal_ctx(&glob), r.gal(|s| gal_str(s))
+            );
+            let shadow: Vec<&String> = ctx.iter().map(|x| &x.0).filter(|n| glob.iter().any(|g| &&g.0 == n)).collect();
+            let desc = json!({"templates": srcs, "entry": entry, "global": glob.iter().map(|x| x.0.clone()).collect::<Vec<_>>(),
+                "context_and_global_bind": shadow, "features": feats, "impl": r.json(|s| json!(s))});
+            let total: usize = lib.iter().map(|(_, b)| b.iter().map(|s| s.count()).sum::<usize>()).sum();
+            let nontrivial = matches!(&r, Outcome::Ok(s) if s.chars().count() > 3) && total >= 5;
+            let tag = match &r { Outcome::Ok(_) => "impl:ok", Outcome::Err(..) => "impl:err", Outcome::Panic(_) => "impl:panic" };
+            rsink.push_with_defs(&defs, g, desc, nontrivial, None, &[tag]);
+        }
+    }
+    meta.extra.insert("stmt_libraries_rejected".into(), json!(rejected));
+    meta.extra.insert("stmt_features".into(), json!(features_seen));
+    meta.families.push(csink.finish());
+    meta.families.push(rsink.finish());
+}
+
 fn main() {
     let args = parse_args();
     silence_panics();
@@ -141,7 +231,7 @@ fn main() {
         "{% set m = {\"x\": nope} %}[{{ m.x }}]",
     ];
     let mut singles: Vec<(String, String)> = hand.iter().enumerate().map(|(i, s)| (format!("hand#{i}"), s.to_string())).collect();
-    let n_gen = if thorough { 3000 } else { 160 };
+    let n_gen = if thorough { 450 } else { 110 };
     for k in 0..n_gen {
         singles.push((format!("gen#{k}"), gen_tpl::template(&mut rng, 1 + (k % 3) as u32)));
     }
@@ -187,7 +277,7 @@ fn main() {
     }
 
     // ---- template sets: inheritance, includes, render and render_block
-    let n_sets = if thorough { 400 } else { 25 };
+    let n_sets = if thorough { 40 } else { 18 };
     for k in 0..n_sets {
         let set = gen_set(&mut rng, k);
         let mut tera = Tera::default();
@@ -254,5 +344,6 @@ fn main() {
     }
     meta.extra.insert("skipped_outside_modelled_subset".into(), json!(skipped_subset));
     meta.families.push(sink.finish());
+    stmt_families(&args, &mut rng, &mut meta);
     meta.write(&args.out);
 }
